@@ -447,14 +447,17 @@ def r2_bond_types(chk):
     g = prog.func(f"{BOND}:Bond.get_mol2_type")
     s = prog.func(f"{BOND}:Bond.set_mol2_type")
     chk.analysed(g, s)
+    from ..canon import Env
+
+    genv = Env(g.node)
     ms = [x for x in g.node.body if isinstance(x, ast.Match)]
-    chk.require(len(ms) == 1 and norm(ms[0].subject) == "self.btype", "Bond.get_mol2_type: match self.btype not found")
+    chk.require(len(ms) == 1 and norm(genv.expand(ms[0].subject)) == "self.btype", "Bond.get_mol2_type: match self.btype not found")
     rows = {}
     default = None
     for c in ms[0].cases:
         ret = [x for x in c.body if isinstance(x, ast.Return)]
         chk.require(len(ret) == 1 and len(c.body) == 1, "Bond.get_mol2_type: case body is not a single return")
-        v = ret[0].value
+        v = genv.expand(ret[0].value)
         tgt = None
         if isinstance(v, ast.Subscript) and norm(v.value) == "MOL2_BOND_TYPE_MAP.inverse" and dotted(v.slice):
             tgt = dotted(v.slice)
@@ -724,7 +727,8 @@ def r4_siblings(chk):
     def fstrings(f):
         out = []
         for c in walk_no_nested(f.node):
-            if isinstance(c, ast.Call) and isinstance(c.func, ast.Attribute) and c.func.attr == "write" and c.args and isinstance(c.args[0], ast.JoinedStr):
+            if isinstance(c, ast.Call) and isinstance(c.func, ast.Attribute) and c.func.attr == "write" and c.args and isinstance(c.args[0], ast.JoinedStr) \
+                    and any(isinstance(v, ast.FormattedValue) for v in c.args[0].values):  # literal-only lines (comments, section tags) carry no record
                 cols = _columns(f.node, c, f.params())
                 out.append([("F" if x["kind"] == "field" else x["text"]) for x in cols])
         return out
